@@ -44,7 +44,7 @@ RULE = ("every ordered pair (m, n) of every shape up to N nodes (quick 5, thorou
 
 def mkcase(rng, t, sep, ic_names, unique):
     names = rc.names_for(rng, t, sep, unique, ic_names, not unique)
-    c = {"fam": "resolve", "tree": t, "names": names, "sep": sep, "pathattr": rng.choice(["name", "name", "tag"]), "queries": [],
+    c = {"fam": "resolve", "tree": t, "names": names, "sep": sep, "pathattr": rng.choice(["name", "name", "tag"]), "queries": [], "typed": rc.typed_labels(rng, names),
          "cls": rng.choice([None, None, "len", "falsy", "eq"])}
     if rng.random() < 0.1 and len(names) > 2:
         names.pop(rng.randrange(1, len(names)))          # a node lacking the attribute -> "None"
